@@ -450,43 +450,50 @@ def prefix_tests(model, fi):
 
 
 def rule_prefix_widths(model):
-    r = RuleResult('C01.R4', 'each tag prefix the scanner compares has the '
-                   'width of its slice, and the name starts right after it')
-    fi = model.func('DT_HTML', 'dtml_re_class.search')
-    n = 0
+    r = RuleResult('C01.R4', 'every tag prefix of the SGML syntaxes is '
+                   'recognised by the scanner, and the tag name / entity '
+                   'body is read from the first character after it')
+    from . import scan
+    res = scan.scan(model)
+    fi = res.fi
     for lit, c, ok, base in prefix_tests(model, fi):
         if len(lit) < 2:
             continue
-        n += 1
         r.instance(fi.where, c, f'width {len(lit)}' if ok
-                   else 'WIDTH MISMATCH')
-        if not ok:
-            r.finding(fi.where, c, f'the slice compared with {lit!r} is '
-                      f'not {len(lit)} characters wide: the prefix is '
-                      'never (or wrongly) recognised', node=c, ctx=fi)
-        # n = s + k in the branch taken
-        par = c._dt_parent
-        while par is not None and not isinstance(par, ast.If):
-            par = getattr(par, '_dt_parent', None)
-        if isinstance(par, ast.If):
-            for st in par.body[:2]:
-                for a in ast.walk(st):
-                    if isinstance(a, ast.Assign) and \
-                            isinstance(a.value, ast.BinOp) and \
-                            norm(a.value.left) == norm(base) and \
-                            isinstance(a.value.right, ast.Constant):
-                        k = a.value.right.value
-                        extra = 1 if lit == '&dtml' else 0
-                        r.instance(fi.where, a, f'name offset {k}')
-                        if k != len(lit) + extra:
-                            r.finding(fi.where, a, 'the tag name is '
-                                      f'read from offset {k}, the '
-                                      f'prefix {lit!r} is '
-                                      f'{len(lit) + extra} characters '
-                                      'long', node=a, ctx=fi)
-    if n < 4:
-        raise AnalysisError(f'C01.R4: only {n} prefix comparisons found')
-    r.floor = 4
+                   else 'width differs from the literal')
+    recognised = {k for k, _ in res.success}
+    for p in scan.PREFIXES:
+        hit = sorted(k for k in recognised if k.startswith(p))
+        r.instance(fi.where, f'prefix {p!r}',
+                   'recognised' if hit else 'NEVER RECOGNISED')
+        if not hit:
+            r.finding(fi.where, f'prefix {p!r}', f'no path of the scanner '
+                      f'returns a tag for text starting with {p!r} (a '
+                      'compared slice is not as wide as its literal, or the '
+                      'branch is gone): such tags are copied out as literal '
+                      'text', node=fi.node, ctx=fi)
+    for known, endv in sorted(res.success, key=str):
+        want = {'</dtml-': '/', '<dtml-': '', '&dtml-': '', '&dtml.': ''}
+        if known in want and endv[0] == 'str' and endv[1] != want[known]:
+            r.finding(fi.where, f'end marker of {known!r}', f'a tag that '
+                      f'starts with {known!r} is reported with the end '
+                      f'marker {endv[1]!r}', node=fi.node, ctx=fi)
+    nreads = 0
+    for kind, node, k, lk, known in res.events.values():
+        if lk == 0 or kind in ('search', 'call'):
+            continue
+        allowed = {'match': (lk,), 'fullmatch': (lk,), 'count': (lk,),
+                   'find': (lk, lk + 1), 'slice': (0, lk)}[kind]
+        nreads += 1
+        r.instance(fi.where, node, f'{kind} at offset {k} after {known!r}')
+        if k not in allowed:
+            r.finding(fi.where, node, f'the tag name is read from offset '
+                      f'{k}, the prefix {known!r} is {lk} characters long',
+                      node=node, ctx=fi)
+    if nreads < 12:
+        raise AnalysisError(f'C01.R4: only {nreads} reads of the text '
+                            'relative to the candidate position understood')
+    r.floor = 12
     return r
 
 
@@ -556,21 +563,10 @@ def rule_epfs_upper(model):
                    'suffix: everything else stays literal text')
     import re
     tg = model.func('DT_String', 'String.tagre')
-    pat = flags = None
-    call = None
-    for c in own_nodes(tg.node):
-        if isinstance(c, ast.Call) and norm(c.func) == 're.compile':
-            ok, pv = model.fold(c.args[0], tg)
-            if ok:
-                pat, call = pv, c
-            flags = 0
-            for a in c.args[1:] + [k.value for k in c.keywords]:
-                for x in ast.walk(a):
-                    if isinstance(x, ast.Attribute) and x.attr.isupper() \
-                            and hasattr(re, x.attr):
-                        flags |= int(getattr(re, x.attr))
-    if pat is None:
+    rx = model.returned_regex(tg)
+    if rx is None:
         raise AnalysisError('String.tagre pattern not found')
+    pat, flags, call = rx
     try:
         inc, wit = regexa.included(pat, EPFS_AT_MOST, flags, 0)
     except regexa.Unsupported as e:
